@@ -212,8 +212,13 @@ def run_case(spec, ctx, R):
         _QR_LOG.clear()
         np.random.seed(sd)
         A0 = refq.fa(A).copy()
+        # call forms: the rank / oversampling / iteration counts in the integer types a caller may hold them in
+        form = (spec["idx"] + k) % 4
+        Rarg = [Rk, np.int64(Rk), np.int32(Rk), np.intp(Rk)][form]
+        par_call = {kk: (np.int64(vv) if form == 2 else vv) for kk, vv in par.items()}
+        ctx.hit("callform:R_as_" + type(Rarg).__name__)
         try:
-            U, s, V = f(A, Rk, **par)
+            U, s, V = f(A, Rarg, **par_call)
         except Exception as e:
             ctx.check("unexpected_exception", False, site=site, tags=tags_base,
                       detail={"exception": repr(e), "shape": [m, n], "R": Rk, **par, "rank": r, "np_seed": sd})
